@@ -1,7 +1,7 @@
 //! Reference semantics for regular-expression construction programs and the checks that compare
 //! the crate's answers with it (oracles for C01 C02 C03 C04 C05 C07 C10 C14 C16 C18 C19).
 use super::{fail, guarded, watch, Ctx, Failure, MAXC};
-use aws_smt_strings::automata::Automaton;
+use aws_smt_strings::automata::{Automaton, AutomatonBuilder};
 use aws_smt_strings::character_sets::*;
 use aws_smt_strings::regular_expressions::*;
 use aws_smt_strings::smt_strings::SmtString;
@@ -445,6 +445,124 @@ fn nerode_classes(a: &Automaton) -> usize {
             return sigs.len();
         }
     }
+}
+
+/// a random complete automaton over states 0..n (some unreachable), transitions on 'a','b','c' and a default
+fn random_builder_automaton(ctx: &mut Ctx) -> (Automaton, String) {
+    let n = 2 + ctx.below(5) as u32;
+    let mut b = AutomatonBuilder::new(&0u32);
+    let mut desc = format!("builder automaton with {} states:", n);
+    for q in 0..n {
+        let d = ctx.below(n as u64) as u32;
+        b.set_default_successor(&q, &d);
+        desc.push_str(&format!(" [{}: default->{}", q, d));
+        for (k, c) in [A, A + 1, A + 2].iter().enumerate() {
+            if ctx.below(3) != 0 {
+                let t = ctx.below(n as u64) as u32;
+                if t != d || k == 0 {
+                    b.add_transition(&q, &CharSet::singleton(*c), &t);
+                    desc.push_str(&format!(" {}->{}", c, t));
+                }
+            }
+        }
+        if ctx.below(3) == 0 {
+            b.mark_final(&q);
+            desc.push_str(" final");
+        }
+        desc.push(']');
+    }
+    (b.build().unwrap(), desc)
+}
+
+pub fn builder_automata_checks(ctx: &mut Ctx, which: &str) -> Option<Failure> {
+    let ws = words();
+    for _ in 0..1500 {
+        if ctx.out_of_time() {
+            break;
+        }
+        let (mut a, desc) = random_builder_automaton(ctx);
+        let r = ctx.case(|| {
+            watch(desc.clone());
+            let before: Vec<bool> = ws.iter().map(|w| a.accepts(&sm(w))).collect();
+            // reference reachability
+            let n = a.num_states();
+            let mut reach = vec![false; n];
+            let mut stack = vec![a.initial_state().id()];
+            reach[stack[0]] = true;
+            while let Some(q) = stack.pop() {
+                for c in [A, A + 1, A + 2, A + 3, 0, MAXC] {
+                    let t = a.next(a.state(q), c).id();
+                    if !reach[t] {
+                        reach[t] = true;
+                        stack.push(t);
+                    }
+                }
+            }
+            let nreach = reach.iter().filter(|&&x| x).count();
+            if which == "C14" {
+                let alpha = a.pick_alphabet();
+                let table = a.compile_successors();
+                for q in 0..n {
+                    for (j, &c) in alpha.iter().enumerate() {
+                        let exp = a.next(a.state(q), c).id() as u32;
+                        let got = table.eval(q as u32, j as u32);
+                        if got != exp {
+                            return fail("Automaton::compile_successors", format!("{} state {} letter#{}={}", desc, q, j, c), format!("{}", exp), format!("{}", got));
+                        }
+                    }
+                    // every edge agrees with next on a character of its class
+                    let st = a.state(q);
+                    let mut cnt = 0;
+                    for (cid, nxt) in a.edges(st) {
+                        cnt += 1;
+                        if a.class_next(st, cid).id() != nxt.id() {
+                            return fail("Automaton::edges", format!("{} state {} class {:?}", desc, q, cid), "the successor for that class".into(), format!("state {}", nxt.id()));
+                        }
+                    }
+                    let expc = st.num_successors() + if st.has_default_successor() { 1 } else { 0 };
+                    if cnt != expc {
+                        return fail("Automaton::edges(count)", format!("{} state {}", desc, q), format!("{}", expc), format!("{}", cnt));
+                    }
+                }
+                let fin: Vec<usize> = a.final_states().map(|s| s.id()).collect();
+                let expf: Vec<usize> = (0..n).filter(|&q| a.state(q).is_final()).collect();
+                if fin != expf || a.num_final_states() != expf.len() {
+                    return fail("Automaton::final_states", desc.clone(), format!("{:?}", expf), format!("{:?} / num_final_states {}", fin, a.num_final_states()));
+                }
+                if let Err(p) = guarded(|| a.remove_unreachable_states()) {
+                    return fail("Automaton::remove_unreachable_states", desc.clone(), "no panic".into(), p);
+                }
+                if a.num_states() != nreach {
+                    return fail("Automaton::remove_unreachable_states(num_states)", desc.clone(), format!("{} reachable states", nreach), format!("{}", a.num_states()));
+                }
+            } else {
+                // C04: minimize
+                let _ = guarded(|| a.remove_unreachable_states());
+                let classes = nerode_classes(&a);
+                if let Err(p) = guarded(|| a.minimize()) {
+                    return fail("Automaton::minimize", desc.clone(), "no panic".into(), p);
+                }
+                if a.num_states() != classes {
+                    return fail("Automaton::minimize(num_states)", desc.clone(), format!("{} (Myhill-Nerode classes)", classes), format!("{}", a.num_states()));
+                }
+            }
+            for (i, w) in ws.iter().enumerate() {
+                match accepts_ref(&a, w) {
+                    Ok(g) if g == before[i] => {}
+                    other => return fail(if which == "C14" { "Automaton::remove_unreachable_states(language)" } else { "Automaton::minimize(language)" }, format!("{} word={:?}", desc, w), format!("{}", before[i]), format!("{:?}", other)),
+                }
+            }
+            let nf = (0..a.num_states()).filter(|&q| a.state(q).is_final()).count();
+            if nf != a.num_final_states() || a.initial_state().id() >= a.num_states() || (0..a.num_states()).any(|q| a.state(q).id() != q) {
+                return fail("Automaton(consistency after renumbering)", desc.clone(), "ids, final count and initial state consistent".into(), "inconsistent".into());
+            }
+            None
+        });
+        if r.is_some() {
+            return r;
+        }
+    }
+    None
 }
 
 // ---------------------------------------------------------------- C02 / C19 / C04 / C14
